@@ -45,6 +45,7 @@ Definition SIG_MEMCACHED_STORAGE := 2%N.    (* memcached storage command: payloa
 Definition SIG_HTTP_REQUEST_LOST := 3%N.    (* http family: pipelined request lost with the per-request reader *)
 Definition SIG_HTTP_SHORT_BODY := 4%N.      (* http family: payload = first Read of the body *)
 Definition SIG_UDP_WRAPPED := 5%N.          (* datagram service tests the concrete connection type *)
+Definition SIG_DATAGRAM_NOT_OWN := 6%N.     (* a datagram is not decoded and reported on its own (other datagram's bytes, none, twice) *)
 
 Definition is_http_family (svc : N) : bool := ((5 <=? svc) && (svc <=? 10))%N.
 Definition is_memcached (svc : N) : bool := beq svc SVC_MEMCACHED || beq svc SVC_MEMCACHED_UDP.
@@ -57,7 +58,8 @@ Definition case_sig (c : case) : N :=
   else if is_memcached (c_svc c) && (has_store (fst exp) || has_store (fst got)) then SIG_MEMCACHED_STORAGE
   else if is_http_family (c_svc c) && (length (fst got) <? length (fst exp)) then SIG_HTTP_REQUEST_LOST
   else if is_http_family (c_svc c) && (length (fst got) =? length (fst exp)) then SIG_HTTP_SHORT_BODY
-  else if beq (c_svc c) SVC_DNS then SIG_UDP_WRAPPED
+  else if beq (c_svc c) SVC_DNS && (match fst got with [] => true | _ => false end) then SIG_UDP_WRAPPED
+  else if (20 <=? c_svc c)%N then SIG_DATAGRAM_NOT_OWN
   else SIG_EVENTS_DIFFER.
 
 Definition mismatches (cs : list case) : list N :=
